@@ -100,6 +100,15 @@ func httpProtoSet(outreq *bfe_http.Request) {
 	outreq.Close = false
 }
 
+// hopByHopProtected are the headers BFE sets itself before forwarding (client address,
+// log id): a client must not be able to strip them from the upstream request by naming
+// them in its Connection header.
+var hopByHopProtected = map[string]bool{
+	bfe_basic.HeaderBfeIP: true, bfe_basic.HeaderBfeLogId: true, bfe_basic.HeaderForwardedHost: true,
+	bfe_basic.HeaderForwardedFor: true, bfe_basic.HeaderForwardedPort: true,
+	bfe_basic.HeaderRealIP: true, bfe_basic.HeaderRealPort: true,
+}
+
 // hopByHopHeaderRemove remove hop-by-hop headers.
 func hopByHopHeaderRemove(outreq, req *bfe_http.Request) {
 	// Remove hop-by-hop headers to the backend.  Especially
@@ -113,8 +122,9 @@ func hopByHopHeaderRemove(outreq, req *bfe_http.Request) {
 	hopHeaders := bfe_basic.HopHeaders[:len(bfe_basic.HopHeaders):len(bfe_basic.HopHeaders)]
 	for _, f := range req.Header["Connection"] {
 		for _, sf := range strings.Split(f, ",") {
-			if sf = strings.TrimSpace(sf); sf != "" {
-				hopHeaders = append(hopHeaders, bfe_http.CanonicalHeaderKey(sf))
+			sf = bfe_http.CanonicalHeaderKey(strings.TrimSpace(sf))
+			if sf != "" && !hopByHopProtected[sf] {
+				hopHeaders = append(hopHeaders, sf)
 			}
 		}
 	}
